@@ -22,7 +22,13 @@ static mut WATCHED: [usize; WATCH_CAP] = [0; WATCH_CAP];
 static mut WATCHED_N: usize = 0;
 static mut FREED: [usize; WATCH_CAP] = [0; WATCH_CAP];
 static mut FREED_N: usize = 0;
+/// Probe byte of each FREED entry (0 when no probe is installed).
+static mut FREED_INFO: [u8; WATCH_CAP] = [0; WATCH_CAP];
 static mut BAD_FREES: usize = 0;
+/// Watched blocks are leaked instead of freed (see `quarantine`).
+static QUARANTINE: AtomicBool = AtomicBool::new(false);
+/// Free-time probe (a `fn(usize) -> u8` stored as an address; 0 = none), see `set_probe`.
+static PROBE: AtomicUsize = AtomicUsize::new(0);
 static ENABLED: AtomicBool = AtomicBool::new(false);
 
 fn lock() {
@@ -81,11 +87,14 @@ unsafe impl GlobalAlloc for Tracking {
                     probes += 1;
                 }
                 let mut watched = false;
+                let mut slot = usize::MAX;
                 for k in 0..WATCHED_N {
                     if WATCHED[k] == a {
                         watched = true;
                         if FREED_N < WATCH_CAP {
                             FREED[FREED_N] = a;
+                            FREED_INFO[FREED_N] = 0;
+                            slot = FREED_N;
                             FREED_N += 1;
                         }
                     }
@@ -96,8 +105,29 @@ unsafe impl GlobalAlloc for Tracking {
                 if !found && (watched || TRACK_ALL.load(Ordering::Relaxed)) {
                     BAD_FREES += 1;
                 }
+                unlock();
+                if watched {
+                    // What does the rest of the world think of this block at the moment it is
+                    // freed? (outside the lock: the probe may look at anything, but should not
+                    // allocate)
+                    let probe = PROBE.load(Ordering::Acquire);
+                    if probe != 0 && slot != usize::MAX {
+                        let f: fn(usize) -> u8 = std::mem::transmute::<usize, fn(usize) -> u8>(probe);
+                        let b = f(a);
+                        lock();
+                        if slot < FREED_N && FREED[slot] == a {
+                            FREED_INFO[slot] = b;
+                        }
+                        unlock();
+                    }
+                    if QUARANTINE.load(Ordering::Relaxed) {
+                        // Leak it: a later use of the block by the code under test reads stale
+                        // but mapped memory, and a second free is counted above (the block is
+                        // no longer live) instead of aborting inside the system allocator.
+                        return;
+                    }
+                }
             }
-            unlock();
             // Poison so that a use after free reads garbage rather than the old contents.
             // (the first MiB of very large blocks: a multi-GiB block of which a few pages were
             // touched must not become resident by being freed)
@@ -182,6 +212,39 @@ pub fn take_freed() -> Vec<usize> {
     }
     unlock();
     tmp[..k].to_vec()
+}
+
+/// Frees of watched addresses since the last call, in order, each with the byte the free-time
+/// probe returned for it (0 without a probe). Drains the same list as `take_freed`.
+#[allow(static_mut_refs)]
+pub fn take_freed_info() -> Vec<(usize, u8)> {
+    lock();
+    let n = unsafe { FREED_N };
+    let mut tmp = [(0usize, 0u8); 64];
+    let k = n.min(64);
+    unsafe {
+        for i in 0..k {
+            tmp[i] = (FREED[i], FREED_INFO[i]);
+        }
+        FREED_N = 0;
+    }
+    unlock();
+    tmp[..k].to_vec()
+}
+
+/// Quarantine (default off): a freed WATCHED block is recorded as usual but neither poisoned nor
+/// handed back to the system allocator. A use after free of it by the code under test then reads
+/// stale, mapped memory, its address is never handed out again, and a second free of it is
+/// counted as a bad free.
+pub fn quarantine(on: bool) {
+    QUARANTINE.store(on, Ordering::SeqCst);
+}
+
+/// Install (or remove) the free-time probe: called with the address whenever a watched block is
+/// freed, after the allocator's lock has been released; the byte it returns is stored with the
+/// entry `take_freed_info` reports. It must not panic and should not allocate.
+pub fn set_probe(f: Option<fn(usize) -> u8>) {
+    PROBE.store(f.map_or(0, |f| f as usize), Ordering::SeqCst);
 }
 
 #[allow(static_mut_refs)]
